@@ -13,6 +13,7 @@ import Driver.Lint
 import Driver.Diff
 import Driver.HclType
 import Driver.Plan
+import Driver.Copy
 open Lean
 
 def dispatch (j : Json) : Json :=
@@ -35,6 +36,7 @@ def dispatch (j : Json) : Json :=
   | "diff.schema" => Driver.handleDiffSchema j
   | "hcltype.convert" => Driver.handleHclTypeConvert j
   | "plan.shape" => Driver.handlePlanShape j
+  | "copy.plan" => Driver.handleCopyPlan j
   | "h1" => Json.mkObj [("h", Atlas.Base.h1 (Driver.unhex (Driver.str j "hex")))]
   | op => Json.mkObj [("err", s!"unknown-op:{op}")]
 
